@@ -42,6 +42,91 @@ template<typename T> static void legacy_tdigest_case(int form, int rep) {
   sig(img_hash(w.b));
 }
 
+// ---------------------------------------------------------------- t-digest current format, every form, synthesised
+// byte0 preLongs (1 empty/single, 2) 1 serVer=1 2 type=20 3-4 k 5 flags (bit0 empty, bit1 single value, bit2 reverse merge) 6-7 unused |
+// single: value | else u32 numCentroids u32 numBuffered | min max | (mean, weight)* | buffered values*
+template<typename T> static void synth_tdigest(int form, int rep) {
+  Rng r(0x7D20 + 11 * form + rep);
+  const uint16_t k = rep & 1 ? 200 : 25;
+  const bool rev = rep & 2;
+  std::vector<T> means, buf; std::vector<uint64_t> ws;
+  static const char* names[] = {"empty", "single-value-short-form", "centroids-only", "centroids-and-buffer", "one-buffered-value-long-form"};
+  if (form == 1) { means.push_back(T(42.5)); ws.push_back(1); }
+  if (form == 2 || form == 3) { double m = -10; const uint32_t nc = 2 + uint32_t(r.below(40)); for (uint32_t i = 0; i < nc; ++i) { m += 0.25 + double(r.below(32)) * 0.125; means.push_back(T(m)); ws.push_back(i == 0 || i + 1 == nc ? 1 : 1 + r.below(30)); } }
+  if (form == 3) for (uint32_t i = 0, nb = 1 + uint32_t(r.below(10)); i < nb; ++i) buf.push_back(T(double(r.below(400)) * 0.125 - 20.0));
+  if (form == 4) buf.push_back(T(-3.25));
+  T mn = 0, mx = 0; bool first = true; uint64_t total = buf.size();
+  for (T v : means) { if (first || v < mn) mn = v; if (first || v > mx) mx = v; first = false; }
+  for (T v : buf) { if (first || v < mn) mn = v; if (first || v > mx) mx = v; first = false; }
+  for (uint64_t x : ws) total += x;
+  auto put = [](Wr& w, T v) { if (sizeof(T) == 8) w.f64(double(v)); else w.f32(float(v)); };
+  Wr w;
+  if (form == 0) w.u8(1).u8(1).u8(20).u16(k).u8(1).u16(0);
+  else if (form == 1) { w.u8(1).u8(1).u8(20).u16(k).u8(uint8_t(2 | (rev ? 4 : 0))).u16(0); put(w, means[0]); }
+  else {
+    w.u8(2).u8(1).u8(20).u16(k).u8(rev ? 4 : 0).u16(0).u32(uint32_t(means.size())).u32(uint32_t(buf.size())); put(w, mn); put(w, mx);
+    for (size_t i = 0; i < means.size(); ++i) { put(w, means[i]); if (sizeof(T) == 8) w.u64(ws[i]); else w.u32(uint32_t(ws[i])); }
+    for (T v : buf) put(w, v);
+  }
+  for (int stream = 0; stream < 2; ++stream) {
+    const std::string P = stream ? "stream" : "bytes";
+    const std::string key = std::string("legacy|tdigest|synthesised-") + names[form] + "|" + (sizeof(T) == 8 ? "double" : "float") + "|" + P + "|";
+    try {
+      tdigest<T> s = read_tdigest<T>(w.b, stream != 0);
+      VF_CHECK(s.get_k() == k && s.is_empty() == (form == 0) && s.get_total_weight() == total, key + "k-empty-or-weight", "weight " + std::to_string(s.get_total_weight()) + " want " + std::to_string(total));
+      if (form != 0) {
+        VF_CHECK(s.get_min_value() == mn && s.get_max_value() == mx, key + "min-max", "");
+        std::vector<std::pair<T, uint64_t>> got, want;
+        for (const auto& c : s.centroids_) got.push_back({c.get_mean(), c.get_weight()});
+        for (T v : s.buffer_) got.push_back({v, 1});
+        for (size_t i = 0; i < means.size(); ++i) want.push_back({means[i], ws[i]});
+        for (T v : buf) want.push_back({v, 1});
+        std::stable_sort(got.begin(), got.end()); std::stable_sort(want.begin(), want.end());
+        VF_CHECK(got == want, key + "centroids-and-buffered-values", "got " + std::to_string(got.size()) + " want " + std::to_string(want.size()));
+        VF_CHECK(s.get_rank(T(mx + 1)) == 1.0 && s.get_rank(T(mn - 1)) == 0.0, key + "rank-outside-range", "");
+        s.update(T(mx + 5));
+        VF_CHECK(s.get_total_weight() == total + 1 && s.get_max_value() == T(mx + 5), key + "usable-after-read", "");
+      }
+    } catch (const std::exception& e) { checked(); fail(key + "deserialize-threw", e.what()); }
+    count("legacy_tdigest_current_" + P);
+  }
+  count(std::string("legacy_tdigest_") + names[form]);
+  sig(img_hash(w.b));
+}
+
+// ---------------------------------------------------------------- Bloom filter images synthesised from the documented layout
+// byte0 preLongs (3 empty, 4) 1 serVer=1 2 family=21 3 flags (4 empty) 4-5 numHashes 6-7 unused | u64 seed | u32 bitArrayLongs u32 unused |
+// [u64 numBitsSet (all ones = not counted) | bit array]   — an empty filter is the 24-byte preamble without the bit count
+static void synth_bloom(int rep) {
+  Rng r(0xB100F + rep);
+  const bool empty = rep < 2;
+  const uint64_t seed = rep & 1 ? 0xfeedfacecafeULL : 9001;
+  const uint16_t nh = uint16_t(1 + rep); const uint32_t longs = 1 + uint32_t(r.below(20)); const uint64_t m = uint64_t(longs) * 64;
+  std::vector<uint8_t> bits(m / 8, 0); std::vector<uint64_t> items;
+  auto idx = [&](uint64_t x, std::vector<uint64_t>& out) { uint8_t b[8]; for (int i = 0; i < 8; ++i) b[i] = uint8_t(x >> (8 * i)); const uint64_t h0 = ref_xxh64(b, 8, seed), h1 = ref_xxh64(b, 8, h0); for (uint64_t i = 1; i <= nh; ++i) out.push_back(((h0 + i * h1) >> 1) % m); };
+  if (!empty) for (int i = 0; i < 25; ++i) { items.push_back(r.next()); std::vector<uint64_t> ix; idx(items.back(), ix); for (uint64_t j : ix) bits[j >> 3] |= uint8_t(1u << (j & 7)); }
+  uint64_t pop = 0; for (uint8_t b : bits) pop += __builtin_popcount(b);
+  const bool counted = rep & 2;
+  Wr w; w.u8(empty ? 3 : 4).u8(1).u8(21).u8(empty ? 4 : 0).u16(nh).u16(0).u64(seed).u32(longs).u32(0);
+  if (!empty) { w.u64(counted ? pop : UINT64_MAX); for (uint8_t b : bits) w.u8(b); }
+  for (int stream = 0; stream < 2; ++stream) {
+    const std::string P = stream ? "stream" : "bytes";
+    const std::string key = std::string("legacy|bloom|synthesised-") + (empty ? "empty-24-bytes" : counted ? "with-bit-count" : "bit-count-not-stored") + "|" + P + "|";
+    try {
+      bloom_filter s = read_bloom(w.b, stream != 0);
+      VF_CHECK(s.get_capacity() == m && s.get_num_hashes() == nh && s.get_seed() == seed && s.is_empty() == empty, key + "configuration", "");
+      VF_CHECK(s.get_bits_used() == pop, key + "bits-used", std::to_string(s.get_bits_used()) + " vs " + std::to_string(pop));
+      bool ok = true;
+      for (uint64_t x : items) ok = ok && s.query(x);
+      Rng pr(77);
+      for (int i = 0; i < 200; ++i) { const uint64_t x = pr.next(); std::vector<uint64_t> ix; idx(x, ix); bool all = true; for (uint64_t j : ix) all = all && ((bits[j >> 3] >> (j & 7)) & 1); ok = ok && s.query(x) == all; }
+      VF_CHECK(ok, key + "queries-vs-reference-bits", "");
+    } catch (const std::exception& e) { checked(); fail(key + "deserialize-threw", e.what()); }
+    count("legacy_bloom_" + P);
+  }
+  sig(img_hash(w.b));
+}
+
 std::vector<Extra>& extras() {
   static std::vector<Extra> x;
   static bool init = false;
@@ -51,6 +136,11 @@ std::vector<Extra>& extras() {
       x.push_back(Extra{"legacy tdigest double", [form, rep]() { legacy_tdigest_case<double>(form, rep); }});
       x.push_back(Extra{"legacy tdigest float", [form, rep]() { legacy_tdigest_case<float>(form, rep); }});
     }
+    for (int form = 0; form < 5; ++form) for (int rep = 0; rep < 4; ++rep) {
+      x.push_back(Extra{"synth tdigest double", [form, rep]() { synth_tdigest<double>(form, rep); }});
+      x.push_back(Extra{"synth tdigest float", [form, rep]() { synth_tdigest<float>(form, rep); }});
+    }
+    for (int rep = 0; rep < 6; ++rep) x.push_back(Extra{"synth bloom", [rep]() { synth_bloom(rep); }});
   }
   return x;
 }
